@@ -314,14 +314,15 @@ def sig_shape(spec, ops, step):
 
 
 def run(chk: Check):
-    chk.rule = ("a case is (display class, transient, vertical_overflow, console height, operation list); lists are every history of "
+    chk.rule = ("a case is (display class, transient, vertical_overflow, console height and width, redirect options, frames wider than the "
+                "terminal or not, operation list); lists are every history of "
                 "MCDepth calls of MC_Live replayed on Live, plus seeded random histories (<= 40 calls) over print / log / redirected "
                 "stdout / update / refresh / add / hide / show / remove / advance / start / stop for Live, Progress and Status, with a "
                 "renderable that starts raising at a random call and a body exception at a random position; distinct by (spec, ops); "
                 "non-trivial = the display was started and at least one frame drawn")
     chk.trusted = ["engine/termlex.py (byte stream -> terminal operations; labels by regex; unlabelled text ignored)",
                    "drivers/c10.py:execute (hook count and sys.stdout identity read after each call)"]
-    chk.assumptions = ["unbounded scroll-back (cursor-up never clamps)", "lines shorter than the console width (no wrapping)",
+    chk.assumptions = ["unbounded scroll-back (cursor-up never clamps)", "the terminal auto-wraps text written past its last column (Screen.tla: tw / col); printed lines are labels shorter than the width",
                        "auto_refresh off: refresh timing is C11's subject"]
     cases = []
     if chk.replay_only:
